@@ -205,3 +205,101 @@ Proof.
     pose proof (rx1_channel c Hc reg Hreg i u Hu) as H. apply rx1_channel_ok_spec in H as [d [H1 [H2 [H3 H4]]]].
     exists d. repeat split; auto.
 Qed.
+
+(* ---- C12: any history of AddChannel / Disable / Enable calls ------------------------------ *)
+
+(* what the RX1 channel functions read of a channel: frequency and the custom flag *)
+Definition fc (c : channel) : Z * bool := (ch_freq c, ch_custom c).
+
+Lemma map_nth_ch_fc g l i : (forall c, fc (g c) = fc c) -> map fc (map_nth_ch g l i) = map fc l.
+Proof.
+  intros Hg. revert i. induction l as [|h tl IH]; intros [|i]; cbn [map_nth_ch map]; try reflexivity.
+  - now rewrite Hg.
+  - now rewrite IH.
+Qed.
+
+(* both lists grow by the same added channels; Enable / Disable change neither a frequency nor a
+   custom flag nor the downlink channels; a band refusing extra channels gets none *)
+Lemma apply_ops_shape t ops :
+  exists added, map fc (t_up (fst (apply_ops t ops))) = map fc (t_up t ++ added)
+                /\ t_down (fst (apply_ops t ops)) = t_down t ++ added
+                /\ (t_extra t = false -> added = []).
+Proof.
+  revert t. induction ops as [|o ops IH]; intros t.
+  - exists []. cbn. rewrite !app_nil_r. auto.
+  - cbn [apply_ops]. destruct (apply_op t o) as [t1| | |] eqn:E; cbn [fst];
+      try (destruct (IH t) as [added H]; exists added; exact H).
+    destruct (IH t1) as [added [Hu [Hd Hx]]].
+    destruct o as [f mn mx|i|i]; cbn [apply_op] in E.
+    + unfold add_channel in E. destruct (t_extra t) eqn:X; cbn [negb] in E; [|discriminate].
+      injection E as <-. cbn [t_up t_down t_extra set_channels] in *.
+      exists (mkCh f mn mx (negb (f =? 0)) true :: added).
+      rewrite Hu, Hd, <- !app_assoc. repeat split; auto. discriminate.
+    + unfold set_enabled_index in E. destruct ((i <? 0) || (i >? zlen (t_up t) - 1)); [discriminate|].
+      injection E as <-. cbn [t_up t_down t_extra set_channels] in *.
+      exists added. rewrite Hu, Hd, !map_app, map_nth_ch_fc by reflexivity. auto.
+    + unfold set_enabled_index in E. destruct ((i <? 0) || (i >? zlen (t_up t) - 1)); [discriminate|].
+      injection E as <-. cbn [t_up t_down t_extra set_channels] in *.
+      exists added. rewrite Hu, Hd, !map_app, map_nth_ch_fc by reflexivity. auto.
+Qed.
+
+Lemma uplink_channel_index_from_fc l l' i f dflt :
+  map fc l = map fc l' -> uplink_channel_index_from l i f dflt = uplink_channel_index_from l' i f dflt.
+Proof.
+  revert l' i. induction l as [|c l IH]; intros [|c' l'] i H; try discriminate; [reflexivity|].
+  cbn [map] in H. injection H as Hc Hl. unfold fc in Hc. injection Hc as Hf Hcu.
+  cbn [uplink_channel_index_from]. rewrite Hf, Hcu. now rewrite (IH l' (i + 1) Hl).
+Qed.
+
+Lemma rx1_channel_after_history c : In c band_configs ->
+  forall reg, region_of (c_name c) = Some reg -> forall ops : list chan_op,
+  let t' := fst (apply_ops (c_tab c) ops) in
+  let c' := with_tables c t' in
+  forall i u, zindex (t_up t') i = Ok u ->
+  exists d, get_rx1_channel_index c' i = Ok (spec_rx1_channel reg i)
+            /\ get_downlink_channel t' (spec_rx1_channel reg i) = Ok d
+            /\ get_rx1_frequency c' (ch_freq u) = Ok (ch_freq d)
+            /\ (match reg with RUS915 | RAU915 | RCN470 => True | _ => ch_freq d = ch_freq u end).
+Proof.
+  intros Hc reg Hreg ops t' c' i u Hu.
+  assert (Hget : forall t0 j d, zindex (t_down t0) j = Ok d -> get_downlink_channel t0 j = Ok d).
+  { intros t0 j d Hd. unfold get_downlink_channel. pose proof (zindex_Ok_range _ _ _ Hd).
+    destruct (Z.ltb_spec j 0); [lia|]. destruct (Z.gtb_spec j (zlen (t_down t0) - 1)); [lia|].
+    exact Hd. }
+  destruct (apply_ops_shape (c_tab c) ops) as [added [Hup [Hdn Hno]]]. fold t' in Hup, Hdn.
+  assert (Hfreq_of_fc : forall l, map ch_freq l = map fst (map fc l)).
+  { intros l. rewrite map_map. reflexivity. }
+  destruct (t_extra (c_tab c)) eqn:E.
+  - pose proof extra_aligned_check_ok as H. unfold extra_aligned_check in H.
+    rewrite forallb_forall in H. specialize (H c Hc). unfold extra_aligned_cfg in H.
+    rewrite E, Hreg in H. rewrite !andb_true_iff in H. destruct H as [[Hk Hr] Hal].
+    apply (list_eqb_eq Z.eqb) in Hal; [|intros a b; apply Z.eqb_eq].
+    assert (Hfreqs : map ch_freq (t_up t') = map ch_freq (t_down t')).
+    { rewrite (Hfreq_of_fc (t_up t')), Hup, <- Hfreq_of_fc, Hdn, !map_app. now rewrite Hal. }
+    pose proof (zindex_map ch_freq _ _ _ Hu) as Hm. rewrite Hfreqs in Hm.
+    apply zindex_map_inv in Hm as [d [Hd Hf]].
+    assert (Hs : spec_rx1_channel reg i = i) by (destruct reg; try reflexivity; discriminate).
+    rewrite Hs. exists d.
+    assert (Hidx : get_rx1_channel_index c' i = Ok i).
+    { unfold get_rx1_channel_index, c', with_tables. cbn [c_kind]. destruct (c_kind c); try reflexivity; discriminate. }
+    assert (Hfr : get_rx1_frequency c' (ch_freq u) = Ok (ch_freq u)).
+    { unfold get_rx1_frequency, c', with_tables. cbn [c_kind]. destruct (c_kind c); try reflexivity; discriminate. }
+    repeat split.
+    + exact Hidx.
+    + apply Hget. exact Hd.
+    + rewrite Hfr, Hf. reflexivity.
+    + destruct reg; auto.
+  - rewrite (Hno eq_refl), app_nil_r in Hup, Hdn.
+    (* the uplink channel i of the original object has the same frequency *)
+    pose proof (zindex_map fc _ _ _ Hu) as Hm. rewrite Hup in Hm.
+    apply zindex_map_inv in Hm as [u0 [Hu0 Hfc]].
+    assert (Hf0 : ch_freq u0 = ch_freq u) by (unfold fc in Hfc; congruence).
+    pose proof (rx1_channel c Hc reg Hreg i u0 Hu0) as H.
+    apply rx1_channel_ok_spec in H as [d [H1 [H2 [H3 H4]]]].
+    assert (Hidx : get_rx1_channel_index c' i = get_rx1_channel_index c i) by reflexivity.
+    assert (Hfr : forall f, get_rx1_frequency c' f = get_rx1_frequency c f).
+    { intros f. unfold get_rx1_frequency, get_rx1_channel_index, get_uplink_channel_index, c', with_tables.
+      cbn [c_kind c_tab]. rewrite Hdn.
+      rewrite (uplink_channel_index_from_fc (t_up t') (t_up (c_tab c)) 0 f true Hup). reflexivity. }
+    exists d. rewrite Hidx, Hfr, <- Hf0, Hdn. repeat split; auto.
+Qed.
